@@ -677,7 +677,13 @@ impl TimeZoneProvider for FsTzdbProvider {
                     EpochNanoseconds::try_from(epoch_nanos.0 - seconds_to_nanoseconds(std.offset))?;
                 let dst_epoch_ns =
                     EpochNanoseconds::try_from(epoch_nanos.0 - seconds_to_nanoseconds(dst.offset))?;
-                vec![std_epoch_ns, dst_epoch_ns]
+                // NOTE: The candidates are reported in chronological order, whichever of the
+                // two records carries the larger offset.
+                if std_epoch_ns <= dst_epoch_ns {
+                    vec![std_epoch_ns, dst_epoch_ns]
+                } else {
+                    vec![dst_epoch_ns, std_epoch_ns]
+                }
             }
         };
         Ok(result)
